@@ -54,6 +54,29 @@ def gen_cases(tier):
                 continue
             cases.append({"id": i + 1, "raw": [d1, d2], "op": "merge", "swap": False, "cfgs": [None]})
             continue
+        if i % 10 == 1:
+            # one viewpoint REFINES the other over the same interface (weaker assumption, a guarantee that implies the other's only under the
+            # other's stronger assumption): merging is not "take the finer one" -- the coarse guarantee is still owed
+            a_, b_, d_ = rng.randint(0, 3), rng.randint(1, 3), rng.randint(1, 3)
+            coarse = {"inv": ["v"], "outv": ["o"], "a": [({"v": 1}, a_)], "g": [({"o": 1}, a_ + b_)]}
+            fine = {"inv": ["v"], "outv": ["o"], "a": [({"v": 1}, a_ + d_)], "g": [({"o": 1, "v": -1}, b_)]}
+            cases.append({"id": i + 1, "raw": [coarse, fine] if rng.random() < 0.5 else [fine, coarse], "op": "merge", "swap": False, "cfgs": [None]})
+            continue
+        if i % 10 == 5:
+            # rows of very different magnitude split across the two sides (an opposite pair here, a row with 10^4..10^5 there): the
+            # redundancy LPs of the joint simplification are the ones the solver's presolve tends to misreport
+            a_, b_, B = rng.choice([1, 1.5, 2, 3]), rng.choice([1e5, 3e5, 2e5]), rng.choice([10, 300100, 1000])
+            c_, d_, C_ = rng.choice([1e5, 1e4, 5e4]), rng.choice([250, 1, 40, 1000]), rng.choice([99960, 10, 1000])
+            sg = rng.choice([1, -1])
+            d1 = {"inv": ["i", "j"], "outv": ["p"], "a": [], "g": [({"i": -c_, "j": sg * d_}, C_), ({"p": 1, "i": -1}, 0)]}
+            d2 = {"inv": ["i"], "outv": ["o"], "a": [], "g": [({"i": a_, "o": -b_}, B), ({"i": -a_, "o": b_}, B)]}
+            if rng.random() < 0.5:
+                d1["outv"], d2["outv"] = ["o"], ["o"]
+                d1["g"] = d1["g"][:1]
+                cases.append({"id": i + 1, "raw": [d1, d2], "op": "merge", "swap": False, "cfgs": [None]})
+            else:
+                cases.append({"id": i + 1, "raw": [d1, d2], "op": "compose", "swap": False, "cfgs": [([], True, None), ([], False, None)]})
+            continue
         if i % 10 == 7:
             # an interface-level guarantee of ONE side that is implied only through the connection: the producer bounds its input by
             # a combination of its outputs, the consumer bounds those outputs and states the resulting bound on the shared input itself
